@@ -801,9 +801,19 @@ def _process_step_result_tick(
             if retries is not None:
                 _next_params = inspect.signature(retries.next).parameters
                 _seed_kwarg = {"seed": jitter_seed} if "seed" in _next_params else {}
-                delay = retries.next(
-                    elapsed_time, failures, result.exception, **_seed_kwarg
-                )
+                try:
+                    delay = retries.next(
+                        elapsed_time, failures, result.exception, **_seed_kwarg
+                    )
+                except Exception:
+                    # A policy (or user retry predicate) that raises must not
+                    # escape the reducer: the run would die without a terminal
+                    # event. Treat it as "do not retry" and fail the step with
+                    # its own exception.
+                    logger.exception(
+                        "retry policy of step %s raised; not retrying", tick.step_name
+                    )
+                    delay = None
             else:
                 delay = None
             if delay is not None:
